@@ -8,7 +8,7 @@ import PydjinniModel.Sys.Config
 * `handler`        `main`'s `except ApplicationException` / `except ApplicationExceptionList` clauses, click's own handling
                    of usage errors (standalone mode, status 2), and Python's default for everything else (traceback, status 1)
 * `cliStages`      the stage outcomes of one invocation: top-level arguments, sub-command lookup, `-o` folding,
-                   `API.configure`, arguments of `generate`, `parse` (readiness of the configured targets, then the front end),
+                   `API.configure`, arguments of `generate`, `parse` (readiness of the configured targets, then the front end), the AST dump of `--log-level debug`,
                    lookup of **all** target names, `generate(tᵢ, clean)` one by one, `write_processed_files`
 * `apiStages`      the documented equivalent call sequence `API().configure(…).parse(…).generate(t₁)…generate(tₙ).write_processed_files()`
 * `exitOf`, `eventsOf`   exit status = handler of the first stage that raised; effects = those of the stages before it
@@ -89,6 +89,7 @@ structure Invocation where
   options : List String        -- `-o` texts, in order
   config : FileState           -- `--config`; `absent` for `None`/`none`/`False`/`false`
   command : Command
+  debug : Bool := false        -- `--log-level debug`: the `generate` callback pretty-prints the AST after parsing
 deriving Repr
 
 /-- everything the command line does not decide -/
@@ -103,6 +104,9 @@ structure World where
   genFail : String → Option Raised
   /-- `generate.list_processed_files` is set -/
   reportConfigured : Bool
+  /-- what pretty-printing the AST does (it evaluates every marshalling property of every configured generator, so an
+  invalid identifier surfaces here already) -/
+  astDump : StageResult := .ok
 
 /-- `generate.model_fields_set` of the validated tree -/
 def genSetOf (t : Kids) : GenSet :=
@@ -159,8 +163,9 @@ def cliStages (inv : Invocation) (w : World) : List Stage :=
     let args : Stage := { result := if argsOk && !targets.isEmpty then .ok else .raised .usage }
     let ready : Stage := { result := ofOutcome (readyOutcome inv w) }
     let front : Stage := { result := w.front }
+    let dump : Stage := { result := if inv.debug then w.astDump else .ok }
     let names : Stage := { result := if targets.all knownTarget then .ok else .raised .usage }
-    [top, hasCmd, opts, conf, args, ready, front, names]
+    [top, hasCmd, opts, conf, args, ready, front, dump, names]
       ++ targets.map (generateStage (configuredOf inv w) w clean) ++ [reportStage w]
 
 /-- the documented equivalent: `API().configure(path, options).parse(idl).generate(t₁, clean)…generate(tₙ, clean).write_processed_files()`
@@ -195,6 +200,7 @@ def StageResult.documented : StageResult → Bool
 def cliDom (inv : Invocation) (w : World) : Bool :=
   cfgDom inv.config
   && w.front.documented
+  && w.astDump.documented
   && (match inv.command with
       | .generate _ _ targets =>
         targets.all (fun t => readyDom (configuredOf inv w) w.kinds t
